@@ -340,6 +340,13 @@ fn c18_mants(shift: u32, thorough: bool) -> Vec<u64> {
         add(max - 2);
         add(0x5555_5555_5555_5555);
         add(0xAAAA_AAAA_AAAA_AAAA);
+        if thorough {
+            // every pattern of the low 6 kept bits, under an all-ones and an all-zeros upper part
+            for low in 0..64u64 {
+                add(low);
+                add((max & !63) | low);
+            }
+        }
         let step = if thorough { 1 } else { 3 };
         let mut k = 0;
         while k < kept_bits {
@@ -359,6 +366,15 @@ fn c18_mants(shift: u32, thorough: bool) -> Vec<u64> {
     let mut dropped: Vec<u128> = vec![0, 1, dmax, dmax.saturating_sub(1)];
     if shift > 0 {
         dropped.extend_from_slice(&[half, half.saturating_sub(1), (half + 1).min(dmax), half >> 1, half | (half >> 1)]);
+        if thorough {
+            // a dense window around the halfway point and at both ends
+            for k in 0..64u128 {
+                dropped.push(half.saturating_sub(k));
+                dropped.push((half + k).min(dmax));
+                dropped.push(k.min(dmax));
+                dropped.push(dmax.saturating_sub(k));
+            }
+        }
     }
     dropped.sort();
     dropped.dedup();
@@ -530,6 +546,7 @@ pub fn c17(a: &Args) -> (Stats, String) {
     fr.dedup();
     let fr = std::sync::Arc::new(fr);
     let dummy: Vec<Job> = (0..2048 + 64).map(|_| -> Job { Box::new(|_e: &mut fam::Emit| {}) }).collect();
+    let thorough17 = a.thorough;
     let st2 = run_jobs(
         &dummy,
         |_s, _j, _c| {},
@@ -546,6 +563,15 @@ pub fn c17(a: &Args) -> (Stats, String) {
                 for sign in 0..2u64 {
                     for &f in fr.iter() {
                         one(st, (sign << 63) | ((j as u64) << 52) | f);
+                    }
+                }
+                if thorough17 {
+                    // complete sweeps of the low 16 and of the high 16 fraction bits in every exponent field
+                    for sign in 0..2u64 {
+                        for w in 0..(1u64 << 16) {
+                            one(st, (sign << 63) | ((j as u64) << 52) | w);
+                            one(st, (sign << 63) | ((j as u64) << 52) | (w << 36));
+                        }
                     }
                 }
             } else {
